@@ -308,15 +308,15 @@ theorem word4_b1 (a b c d : Nat) (hb : b < 256) (hc : c < 256) (hd : d < 256) :
     (a * 16777216 + (b * 65536 + (c * 256 + d))) / 65536 % 256 = b := by
   have e : a * 16777216 + (b * 65536 + (c * 256 + d)) = (a * 256 + b) * 65536 + (c * 256 + d) := by omega
   rw [e, digit_hi _ _ _ (by omega), digit_lo _ _ _ hb]
-theorem word4_b2 (a b c d : Nat) (hb : b < 256) (hc : c < 256) (hd : d < 256) :
+theorem word4_b2 (a b c d : Nat) (_hb : b < 256) (hc : c < 256) (hd : d < 256) :
     (a * 16777216 + (b * 65536 + (c * 256 + d))) / 256 % 256 = c := by
   have e : a * 16777216 + (b * 65536 + (c * 256 + d)) = ((a * 256 + b) * 256 + c) * 256 + d := by omega
   rw [e, digit_hi _ _ _ hd, digit_lo _ _ _ hc]
-theorem word4_b3 (a b c d : Nat) (hb : b < 256) (hc : c < 256) (hd : d < 256) :
+theorem word4_b3 (a b c d : Nat) (_hb : b < 256) (_hc : c < 256) (hd : d < 256) :
     (a * 16777216 + (b * 65536 + (c * 256 + d))) % 256 = d := by
   have e : a * 16777216 + (b * 65536 + (c * 256 + d)) = ((a * 256 + b) * 256 + c) * 256 + d := by omega
   rw [e, digit_lo _ _ _ hd]
-theorem word4_hi24 (a b c d : Nat) (hb : b < 256) (hc : c < 256) (hd : d < 256) :
+theorem word4_hi24 (a b c d : Nat) (_hb : b < 256) (_hc : c < 256) (hd : d < 256) :
     (a * 16777216 + (b * 65536 + (c * 256 + d))) / 256 = a * 65536 + (b * 256 + c) := by
   have e : a * 16777216 + (b * 65536 + (c * 256 + d)) = (a * 65536 + (b * 256 + c)) * 256 + d := by omega
   rw [e, digit_hi _ _ _ hd]
